@@ -36,7 +36,8 @@ Classes     == {"value", "offset"}
 \*            ind (the site holds a reference), cls (offset: the value is a file position)]
 SiteOK(s) == /\ s.cont \in Containers /\ s.base \in BaseKinds /\ s.cls \in Classes
              /\ s.ind \in BOOLEAN /\ s.ownerobj \in Nat
-SeedOK(S) == /\ \A s \in S.sites : SiteOK(s)
+SeedOK(S) == /\ S.enc \in BOOLEAN                       \* the document is encrypted (standard security handler)
+             /\ \A s \in S.sites : SiteOK(s)
              /\ \A t \in S.streams : t.plen \in Nat
              /\ \A e \in S.ents : e.form \in {"table", "stream"}
              /\ S.flen \in Nat \ {0}
@@ -66,7 +67,16 @@ RefFaults(s) == (IF s.ownerobj # 0 THEN {F("value", s.id, "ref_self", "", 0, 0, 
 \* the newest section (so that every chain reaching it starts over), the middle of an object
 OffFaults(s) == {F("value", s.id, k, "", 0, 0, "") : k \in {"off_self", "off_dangling", "off_cycle", "off_garbage"}}
 
+\* ------------------------------------------------------------------ encrypted documents: a string that is no ciphertext
+\* Every other replacement value is written the way a writer would write it - encrypted.  In an encrypted document
+\* a value can also be replaced by a string whose bytes in the file are NOT a valid ciphertext (what a damaged or
+\* truncated encrypted string looks like): a few bytes, shorter than an AES initialization vector.
+\* Form 0: a literal string planted directly; form 1: a hexadecimal string in an object of its own, behind a reference.
+RawForms == {0, 1}
+RawStrFaults(s) == IF s.enc /\ s.cls = "value" THEN {F("value", s.id, "rawstr", "", v, 0, "") : v \in RawForms} ELSE {}
+
 SiteFaults(s) == RetypeSet(s) \cup Deletes(s) \cup (IF s.cls = "offset" THEN OffFaults(s) ELSE RefFaults(s))
+                 \cup RawStrFaults(s)
 
 \* ------------------------------------------------------------------ stream payloads and the file
 Positions(n, stride) == {p \in 0..(n - 1) : p % stride = 0 \/ p = n - 1}
@@ -82,13 +92,14 @@ EntFaults(e) == {F("xrefent", e.id, k, "", 0, 0, "") : k \in EntKinds(e)}
 
 \* ------------------------------------------------------------------ anchors: where a fault can sit
 \* one record shape for sites, stream payloads, cross-reference entries and the file as a whole
-Anchor(t, id, ownerobj, cont, base, ind, cls, n, form) ==
-  [t |-> t, id |-> id, ownerobj |-> ownerobj, cont |-> cont, base |-> base, ind |-> ind, cls |-> cls, n |-> n, form |-> form]
+Anchor(t, id, ownerobj, cont, base, ind, cls, n, form, enc) ==
+  [t |-> t, id |-> id, ownerobj |-> ownerobj, cont |-> cont, base |-> base, ind |-> ind, cls |-> cls, n |-> n, form |-> form,
+   enc |-> enc]
 Anchors(S) ==
-  {Anchor("site", s.id, s.ownerobj, s.cont, s.base, s.ind, s.cls, 0, "") : s \in S.sites}
-  \cup {Anchor("stream", t.id, 0, "", "stream", FALSE, "", t.plen, "") : t \in S.streams}
-  \cup {Anchor("ent", e.id, 0, "", "", FALSE, "", 0, e.form) : e \in S.ents}
-  \cup {Anchor("file", "", 0, "", "", FALSE, "", S.flen, "")}
+  {Anchor("site", s.id, s.ownerobj, s.cont, s.base, s.ind, s.cls, 0, "", S.enc) : s \in S.sites}
+  \cup {Anchor("stream", t.id, 0, "", "stream", FALSE, "", t.plen, "", S.enc) : t \in S.streams}
+  \cup {Anchor("ent", e.id, 0, "", "", FALSE, "", 0, e.form, S.enc) : e \in S.ents}
+  \cup {Anchor("file", "", 0, "", "", FALSE, "", S.flen, "", S.enc)}
 FaultsAt(a) ==
   CASE a.t = "site"   -> SiteFaults(a)
     [] a.t = "stream" -> PayloadFaults([id |-> a.id, plen |-> a.n])
@@ -107,6 +118,7 @@ PerSiteRetypes(s) ==
   IN d1 + dn * NV + r1 + rn * NV
 PerSite(s) == PerSiteRetypes(s) + (IF s.cont = "dict" THEN 1 ELSE 0)
               + (IF s.cls = "offset" THEN 4 ELSE 3 + (IF s.ownerobj # 0 THEN 1 ELSE 0))
+              + (IF s.enc /\ s.cls = "value" THEN Cardinality(RawForms) ELSE 0)
 NPos(n, stride) == IF n = 0 THEN 0 ELSE ((n - 1) \div stride) + 1 + (IF (n - 1) % stride = 0 THEN 0 ELSE 1)
 ExpectedAt(a) ==
   CASE a.t = "site"   -> PerSite(a)
@@ -122,7 +134,7 @@ ASSUME SeedsWellFormed == \A n \in DOMAIN Seeds : SeedOK(Seeds[n])
 VARIABLES seed, at, fault
 vars == <<seed, at, fault>>
 
-NoAnchor == Anchor("none", "", 0, "", "", FALSE, "", 0, "")
+NoAnchor == Anchor("none", "", 0, "", "", FALSE, "", 0, "", FALSE)
 NoFault  == F("none", "", "", "", 0, 0, "")
 
 Init == /\ seed \in DOMAIN Seeds
@@ -152,6 +164,7 @@ Applicable ==
          /\ (fault.kind \in {"ref_self", "ref_missing", "ref_loop1", "ref_loop2"} => at.cls = "value")
          /\ (fault.kind \in {"off_self", "off_dangling", "off_cycle", "off_garbage"} => at.cls = "offset")
          /\ (fault.kind = "retype" => fault.to # "stream" /\ fault.variant \in VariantsOf(fault.to))
+         /\ (fault.kind = "rawstr" => at.enc /\ at.cls = "value" /\ fault.variant \in RawForms)
     [] fault.cls = "payload" -> at.t = "stream" /\ fault.site = at.id /\ fault.pos < at.n
     [] fault.cls = "file" -> at.t = "file" /\ fault.pos < at.n
     [] fault.cls = "xrefent" -> at.t = "ent" /\ fault.site = at.id /\ fault.kind \in EntKinds(at)
@@ -168,7 +181,8 @@ KindsPresent ==
          /\ (at.cont = "dict" => \E g \in sp : g.kind = "delete")                                  \* removing the key
          /\ (at.cls = "value" =>
                /\ \A k \in {"ref_missing", "ref_loop1", "ref_loop2"} : \E g \in sp : g.kind = k       \* nowhere / cycle
-               /\ (at.ownerobj # 0 => \E g \in sp : g.kind = "ref_self"))                          \* itself
+               /\ (at.ownerobj # 0 => \E g \in sp : g.kind = "ref_self")                           \* itself
+               /\ (at.enc => \A v \in RawForms : \E g \in sp : g.kind = "rawstr" /\ g.variant = v))  \* no ciphertext
     [] at.t = "stream" ->                                      \* every position: damaged, and cut
          /\ {g.pos : g \in {h \in sp : h.kind = "corrupt" /\ h.mode = "flip"}} = Positions(at.n, PayloadStride)
          /\ {g.pos : g \in {h \in sp : h.kind = "truncate"}} = Positions(at.n, PayloadStride)
